@@ -637,10 +637,18 @@ def ok_query(P, R, rule='C11.GRD.4'):
     # result sites: `return <constant>`, or - in single-exit form - the assignments of a constant to the local returned
     results = []
     retvars = {s.ev['val']['name'] for s in f.sites() if s.ev['k'] == 'ret' and is_var(s.ev.get('val')) and s.ev['val'].get('sc') == 'local'}
+    # ... and the locals a result variable is copied from (the value a folded per-slot helper hands back)
+    grew = True
+    while grew:
+        grew = False
+        for s in f.stores():
+            if s.ev['k'] == 'store' and is_var(s.ev.get('lhs')) and s.ev['lhs']['name'] in retvars and s.ev.get('op') == '=' and is_var(s.ev.get('rhs')) and s.ev['rhs'].get('sc') == 'local' and s.ev['rhs']['name'] not in retvars:
+                retvars.add(s.ev['rhs']['name'])
+                grew = True
     for s in f.sites():
         if s.ev['k'] == 'ret' and s.ev.get('val') is not None and not (is_var(s.ev['val']) and s.ev['val']['name'] in retvars):
             results.append((s, const_of(s.ev['val']) if isinstance(const_of(s.ev['val']), int) else sx(s.ev['val'])))
-        if s.ev['k'] == 'store' and is_var(s.ev.get('lhs')) and s.ev['lhs']['name'] in retvars and s.ev.get('op') == '=':
+        if s.ev['k'] == 'store' and is_var(s.ev.get('lhs')) and s.ev['lhs']['name'] in retvars and s.ev.get('op') == '=' and not (is_var(s.ev.get('rhs')) and s.ev['rhs']['name'] in retvars):
             results.append((s, const_of(s.ev['rhs']) if isinstance(const_of(s.ev.get('rhs')), int) else sx(s.ev.get('rhs'))))
 
     def maskrel(g):
